@@ -213,6 +213,100 @@ fn op_analyze(case: &Value) -> Value {
     json!({"parse_errs": errs, "ok": diags.is_empty(), "diags": diags})
 }
 
+/// The stream of scope events of rule_use_declared_symbolic_var, produced with the library's own traversal:
+/// "|" starts a top-level element, E / X bracket a function, function block, program or configuration,
+/// A:name is a declared variable (or the unit's own name), U:pos:name a named variable.
+struct Events {
+    out: Vec<String>,
+}
+
+impl Visitor<()> for Events {
+    type Value = ();
+
+    fn visit_library_element_kind(&mut self, node: &LibraryElementKind) -> Result<(), ()> {
+        self.out.push("|".to_string());
+        node.recurse_visit(self)
+    }
+    fn visit_function_declaration(&mut self, node: &FunctionDeclaration) -> Result<(), ()> {
+        self.out.push("E".to_string());
+        self.out.push(format!("A:{}", node.name.original));
+        let r = node.recurse_visit(self);
+        self.out.push("X".to_string());
+        r
+    }
+    fn visit_function_block_declaration(&mut self, node: &FunctionBlockDeclaration) -> Result<(), ()> {
+        self.out.push("E".to_string());
+        self.out.push(format!("A:{}", node.name.original));
+        let r = node.recurse_visit(self);
+        self.out.push("X".to_string());
+        r
+    }
+    fn visit_program_declaration(&mut self, node: &ProgramDeclaration) -> Result<(), ()> {
+        self.out.push("E".to_string());
+        self.out.push(format!("A:{}", node.name.original));
+        let r = node.recurse_visit(self);
+        self.out.push("X".to_string());
+        r
+    }
+    fn visit_configuration_declaration(
+        &mut self,
+        node: &ironplc_dsl::configuration::ConfigurationDeclaration,
+    ) -> Result<(), ()> {
+        self.out.push("E".to_string());
+        let r = node.recurse_visit(self);
+        self.out.push("X".to_string());
+        r
+    }
+    fn visit_var_decl(&mut self, node: &VarDecl) -> Result<(), ()> {
+        if let Some(id) = node.identifier.symbolic_id() {
+            self.out.push(format!("A:{}", id.original));
+        }
+        node.recurse_visit(self)
+    }
+    fn visit_named_variable(&mut self, node: &ironplc_dsl::textual::NamedVariable) -> Result<(), ()> {
+        self.out.push(format!("U:{}:{}", node.name.span.start, node.name.original));
+        Ok(())
+    }
+}
+
+/// parse every file, emit the scope events of the libraries (in the given order), and analyze them
+fn op_events(case: &Value) -> Value {
+    let (libs, errs) = parse_files(case);
+    let mut per_file = vec![];
+    for (name, lib) in libs.iter() {
+        let mut v = Events { out: vec![] };
+        let _ = v.walk(lib);
+        per_file.push(json!([name, v.out.join(" ")]));
+    }
+    let refs: Vec<&Library> = libs.iter().map(|x| &x.1).collect();
+    // what the rules see: the library after the declaration sort and the late-bound resolution
+    let mut resolved_events = Value::Null;
+    let mut rule_diags = Value::Null;
+    let mut xform_diags: Vec<Value> = vec![];
+    match ironplc_analyzer::verif_hooks::resolve_types(&refs) {
+        Ok(lib) => {
+            let mut v = Events { out: vec![] };
+            let _ = v.walk(&lib);
+            resolved_events = json!(v.out.join(" "));
+            let rule = case.get("rule").and_then(|v| v.as_str()).unwrap_or("rule_use_declared_symbolic_var");
+            if let Some(r) = ironplc_analyzer::verif_hooks::rule(rule, &lib) {
+                rule_diags = match r {
+                    Ok(_) => json!([]),
+                    Err(ds) => Value::Array(ds.iter().map(diag_json).collect()),
+                };
+            }
+        }
+        Err(ds) => xform_diags = ds.iter().map(diag_json).collect(),
+    }
+    let res = analyze(&refs);
+    let diags: Vec<Value> = match res {
+        Ok(_) => vec![],
+        Err(ds) => ds.iter().map(diag_json).collect(),
+    };
+    json!({"parse_errs": errs, "events": per_file, "resolved_events": resolved_events, "rule_diags": rule_diags,
+           "xform_diags": xform_diags, "ok": diags.is_empty(), "diags": diags})
+}
+
 /// FileBackedProject: change_text_document in the given order, then semantic()
 fn op_project(case: &Value) -> Value {
     let mut project = FileBackedProject::new();
@@ -398,6 +492,7 @@ fn run_case(case: &Value) -> Value {
         "parse" => op_parse(case),
         "analyze" => op_analyze(case),
         "project" => op_project(case),
+        "events" => op_events(case),
         "roundtrip" => op_roundtrip(case),
         "render" => op_render(case),
         "respell" => op_respell(case),
